@@ -97,6 +97,7 @@ fn class_weights(mode: Prop, kind: Kind, mbuff_len: usize) -> Vec<(Class, u32)> 
             if has_pkt {
                 w.push((Class::ProbePktAbs, 1));
                 w.push((Class::ProbePktInd, 1));
+                w.push((Class::ProbeHelperThenPkt, 1));
             }
         }
         Prop::C09 => {
@@ -120,6 +121,7 @@ fn class_weights(mode: Prop, kind: Kind, mbuff_len: usize) -> Vec<(Class, u32)> 
             if has_pkt {
                 w.push((Class::ProbePktAbs, 3));
                 w.push((Class::ProbePktInd, 3));
+                w.push((Class::ProbeHelperThenPkt, 3));
             }
         }
     }
@@ -163,6 +165,22 @@ pub fn generate(rng: &mut Rng, mode: Prop) -> Scenario {
         }
     } else {
         packets.push(Vec::new());
+    }
+    // some packets are prefix views of the first packet's buffer: same start address, other length
+    let mut prefix_of: Vec<Option<usize>> = vec![None; packets.len()];
+    if kind.has_packet() {
+        for i in 1..packets.len() {
+            if rng.chance(1, 3) {
+                let l0 = packets[0].len();
+                let len = match rng.below(4) {
+                    0 => 0,
+                    1 => rng.range(1, 16) as usize,
+                    _ => rng.range(1, l0 as u64 - 1) as usize,
+                };
+                packets[i] = packets[0][..len].to_vec();
+                prefix_of[i] = Some(0);
+            }
+        }
     }
     let mbuff_len = if kind == Kind::Mbuff { *rng.pick(&[0usize, 8, 32, 32, 32, 64]) } else { 0 };
     let mbuffs: Vec<Vec<u8>> = if kind == Kind::Mbuff { (0..2).map(|_| (0..mbuff_len).map(|_| rng.next_u64() as u8).collect()).collect() } else { Vec::new() };
@@ -211,7 +229,8 @@ pub fn generate(rng: &mut Rng, mode: Prop) -> Scenario {
                 gen_probe_pkt_ind(tag, idx, reg, *rng.pick(&[1u8, 1, 2, 4, 8]))
             }
             Class::ProbeR1Load => {
-                let lim = if kind == Kind::Raw { p0len } else { mbuff_len };
+                // the index is the instruction's 16-bit signed offset
+                let lim = (if kind == Kind::Raw { p0len } else { mbuff_len }).min(32000);
                 gen_probe_r1_load(tag, rng.below(lim as u64) as usize, kind)
             }
             Class::ProbeStack => gen_probe_stack(rng, tag),
@@ -220,6 +239,11 @@ pub fn generate(rng: &mut Rng, mode: Prop) -> Scenario {
                 gen_stack_plain(rng, tag, with_call)
             }
             Class::StorePkt => gen_store_pkt(rng, tag),
+            Class::ProbeHelperThenPkt => {
+                let idx = rng.below((p0len.min(200) - 8) as u64 + 1) as usize;
+                let ind = rng.chance(1, 2);
+                gen_probe_helper_then_pkt(rng, tag, idx, ind)
+            }
             Class::StackLeakWrite => gen_stack_leak_write(rng, tag),
             Class::StackLeakRead => gen_stack_leak_read(tag),
         };
@@ -227,7 +251,7 @@ pub fn generate(rng: &mut Rng, mode: Prop) -> Scenario {
     }
 
     // operation weights for this run
-    let mut sc = Scenario { kind, progs, packets, mbuffs, ops: Vec::new() };
+    let mut sc = Scenario { kind, progs, packets, prefix_of, mbuffs, ops: Vec::new() };
     let wv = |rng: &mut Rng, base: u32| base * *rng.pick(&[0u32, 1, 1, 2, 3]);
     let w_new = wv(rng, 1);
     let w_setprog = wv(rng, 4).max(1);
@@ -244,6 +268,8 @@ pub fn generate(rng: &mut Rng, mode: Prop) -> Scenario {
     // ---- history ---------------------------------------------------------------------------
     let mut gm: Option<Model> = None; // the generator's own prediction of the VM state
     let mut forced: Vec<Op> = Vec::new();
+    // what this VM has seen so far: programs it had loaded, (engine, program) pairs it had compiled
+    let mut past = Past::default();
     let mut guard_iters = 0;
     while sc.ops.len() < nops && guard_iters < 4000 {
         guard_iters += 1;
@@ -255,9 +281,9 @@ pub fn generate(rng: &mut Rng, mode: Prop) -> Scenario {
             let m = gm.as_ref().unwrap();
             match rng.weighted(&weights) {
                 0 => gen_new(rng, &sc, &offsets),
-                1 => gen_set_program(rng, &sc, m, &offsets),
+                1 => gen_set_program(rng, &sc, m, &offsets, &past),
                 2 => Op::SetVerifier { vid: rng.range(V_DEFAULT_EQ as u64, V_TAG_ODD as u64) as u8 },
-                3 => gen_register_helper(rng, mode),
+                3 => gen_register_helper(rng, mode, &sc, m, &past),
                 4 => Op::SetCalc { cid: rng.below(N_CALCS as u64) as u8 },
                 5 => Op::JitCompile,
                 6 => Op::ClCompile,
@@ -266,7 +292,7 @@ pub fn generate(rng: &mut Rng, mode: Prop) -> Scenario {
                     // a fault, armed right before a call that can meet it
                     match rng.below(3) {
                         0 => {
-                            forced.push(gen_set_program(rng, &sc, m, &offsets));
+                            forced.push(gen_set_program(rng, &sc, m, &offsets, &past));
                             Op::ArmVeto
                         }
                         1 => {
@@ -291,11 +317,43 @@ pub fn generate(rng: &mut Rng, mode: Prop) -> Scenario {
         let succeeded = assume_correct(&sc, &mut gm, &op, pending_veto, pending_alloc);
         let is_new = matches!(op, Op::New { .. });
         let is_compile = matches!(op, Op::JitCompile | Op::ClCompile);
+        // remember what was loaded / compiled (a new VM forgets)
+        if succeeded {
+            match &op {
+                Op::New { pid, .. } => {
+                    past = Past::default();
+                    if let Some(p) = pid {
+                        past.loaded.push(*p);
+                    }
+                }
+                Op::SetProgram { pid, .. } => past.loaded.push(*pid),
+                Op::JitCompile => {
+                    if let Some(p) = gm.as_ref().and_then(|m| m.prog) {
+                        past.compiled.push((Engine::Jit, p));
+                    }
+                }
+                Op::ClCompile => {
+                    if let Some(p) = gm.as_ref().and_then(|m| m.prog) {
+                        past.compiled.push((Engine::Cl, p));
+                    }
+                }
+                _ => {}
+            }
+        }
+        let reloaded_compiled: Option<Engine> = match (&op, succeeded) {
+            (Op::SetProgram { pid, .. }, true) => past.compiled.iter().rev().find(|c| c.1 == *pid).map(|c| c.0),
+            _ => None,
+        };
         sc.ops.push(op);
         if forced.is_empty() {
             if let Some(m) = gm.as_ref() {
-                if is_compile && succeeded && rng.chance(2, 5) {
-                    forced.push(gen_set_program(rng, &sc, m, &offsets));
+                if let (Some(engine), true) = (reloaded_compiled, rng.chance(3, 5)) {
+                    // a program this VM had compiled earlier is loaded again: compile it again with the
+                    // same compiler and run it (anything cached from the first time shows now)
+                    forced.push(Op::Exec { engine, pkt: gen_pkt(rng, &sc, m), mb: 0 });
+                    forced.push(if engine == Engine::Jit { Op::JitCompile } else { Op::ClCompile });
+                } else if is_compile && succeeded && rng.chance(2, 5) {
+                    forced.push(gen_set_program(rng, &sc, m, &offsets, &past));
                 } else if !succeeded && before.is_some() && rng.chance(1, 2) {
                     forced.push(gen_exec(rng, &sc, m));
                 } else if is_new && succeeded && mode == Prop::C09 && rng.chance(4, 5) {
@@ -331,7 +389,23 @@ fn gen_new(rng: &mut Rng, sc: &Scenario, offsets: &[(usize, usize)]) -> Op {
     Op::New { pid, doff, eoff }
 }
 
-fn gen_set_program(rng: &mut Rng, sc: &Scenario, m: &Model, offsets: &[(usize, usize)]) -> Op {
+#[derive(Default)]
+struct Past {
+    loaded: Vec<usize>,
+    compiled: Vec<(Engine, usize)>,
+}
+
+fn gen_pkt(rng: &mut Rng, sc: &Scenario, m: &Model) -> usize {
+    let min_pkt = m.prog.map(|p| sc.progs[p].min_pkt).unwrap_or(0);
+    let cands: Vec<usize> = (0..sc.packets.len()).filter(|i| sc.packets[*i].len() >= min_pkt || !sc.kind.has_packet()).collect();
+    if cands.is_empty() {
+        0
+    } else {
+        *rng.pick(&cands)
+    }
+}
+
+fn gen_set_program(rng: &mut Rng, sc: &Scenario, m: &Model, offsets: &[(usize, usize)], past: &Past) -> Op {
     let mut pid = rng.below(sc.progs.len() as u64) as usize;
     // prefer a program different from the loaded / compiled one
     for _ in 0..3 {
@@ -341,6 +415,13 @@ fn gen_set_program(rng: &mut Rng, sc: &Scenario, m: &Model, offsets: &[(usize, u
         }
         pid = rng.below(sc.progs.len() as u64) as usize;
     }
+    // ... or go back to one this VM had before (A, B, A), preferably one it had compiled
+    if rng.chance(3, 10) {
+        let back: Vec<usize> = past.compiled.iter().map(|c| c.1).chain(past.loaded.iter().copied()).filter(|p| Some(*p) != m.prog).collect();
+        if !back.is_empty() {
+            pid = *rng.pick(&back[..back.len().min(past.compiled.len().max(1) * 2).max(1)]);
+        }
+    }
     let (doff, eoff) = match sc.progs[pid].offsets {
         Some(o) => o,
         None => *rng.pick(offsets),
@@ -348,7 +429,27 @@ fn gen_set_program(rng: &mut Rng, sc: &Scenario, m: &Model, offsets: &[(usize, u
     Op::SetProgram { pid, doff, eoff }
 }
 
-fn gen_register_helper(rng: &mut Rng, mode: Prop) -> Op {
+fn gen_register_helper(rng: &mut Rng, mode: Prop, sc: &Scenario, m: &Model, past: &Past) -> Op {
+    // often: replace the function behind a key that the loaded program, or one compiled earlier, calls
+    if rng.chance(2, 5) {
+        let mut keys: Vec<u32> = Vec::new();
+        for p in m.prog.iter().copied().chain(past.compiled.iter().map(|c| c.1)) {
+            for k in helper_keys(&sc.progs[p].bytes) {
+                if MIXER_KEYS.contains(&k) && !keys.contains(&k) {
+                    keys.push(k);
+                }
+            }
+        }
+        if !keys.is_empty() {
+            let key = *rng.pick(&keys);
+            let cur = m.helpers.get(&key).copied();
+            let mut hid = rng.range(H_MIX0 as u64, H_MIX3 as u64) as u8;
+            if Some(hid) == cur {
+                hid = (hid + 1) % (H_MIX3 + 1);
+            }
+            return Op::RegisterHelper { key, hid };
+        }
+    }
     let probe_bias = if mode == Prop::C09 { 2 } else { 1 };
     match rng.below(6 + probe_bias * 3) {
         0..=5 => Op::RegisterHelper { key: *rng.pick(&MIXER_KEYS), hid: rng.range(H_MIX0 as u64, H_MIX3 as u64) as u8 },
